@@ -6,7 +6,7 @@ from props import c01
 
 ID = "C14"
 THEOREMS = ["Bufr.C14.C14_compressed_column", "Bufr.C14.C14_slice_length", "Bufr.C14.C14_fixed_subsets",
-            "Bufr.C14.C14_merge_refuses", "Bufr.C14.C14_merge_places"]
+            "Bufr.C14.C14_merge_refuses", "Bufr.C14.C14_merge_places", "Bufr.C14.C14_ieee_column_const", "Bufr.C14.C14_ieee_column_listed"]
 RULE = ("datasets of the C01/C02 space with n = 1..8 subsets, encoded compressed and uncompressed; every (a, b) with "
         "1 <= a <= b <= n for small n (sampled for larger), plus out-of-range and inverted requests; merges of decoded "
         "subsets into built datasets of the same and of a different template at every destination position incl. beyond "
